@@ -416,7 +416,7 @@ def codec_module(seed, endianness, prefix="", tier="quick"):
     decls += optional_packets(names, rng, enums8, enums16, structs[0], structs[1], by_w)
     decls += typedef_packets(names, rng, enums8, structs[0], structs[1], structs[2], customs)
     decls += inheritance_trees(names, rng, enums8, structs[0])
-    decls += composed_packets(names, random.Random(seed * 7919 + 1), by_w, structs, customs, 40 if quick else 120)
+    decls += composed_packets(names, random.Random(seed * 7919 + 1), by_w, structs, customs, 40 if quick else 90)
     # one packet per enum so that every enum is exercised inside a codec
     for e in enums:
         w = e["width"]
